@@ -68,7 +68,7 @@ func opRun(op int, cur layout, ct []byte) ([]byte, error) {
 	case 3:
 		return sm2.ASN1Ciphertext2Plain(ct, nil)
 	}
-	return sm2.ASN1Ciphertext2Plain(ct, encOpts[op-3].Opts()) // encOpts[1..6] are the six plain options in the same order
+	return sm2.ASN1Ciphertext2Plain(ct, encOpts[op-2].Opts()) // encOpts[2..7] are the six plain options in the same order
 }
 
 type convCase struct {
@@ -108,7 +108,7 @@ func checkConvert(c convCase, r *h.Rec) error {
 			return fmt.Errorf("harness: library start needs k")
 		}
 		var o encOpt
-		for _, o = range encOpts[1:] {
+		for _, o = range encOpts[2:] {
 			if o.L == cur && o.Name != "EncryptASN1" {
 				break
 			}
@@ -197,7 +197,7 @@ func convBases() []baseSpec {
 		{D: b32(d), K: b32(edgeK(3, 0)), MsgLen: 127, Seed: 5},                             // k = n-1, C1 = -G
 		{D: b32(d), K: k(6), MsgLen: 128, MsgKind: 1, Seed: 6},                             // ASN.1 long-form lengths start here
 		{D: b32(d0), K: k(7), MsgLen: 300, Seed: 7},
-		{D: b32(d0), C1X: make([]byte, 32), MsgLen: 20, Seed: 8},                // C1 = (0, sqrt b)
+		{D: b32(d0), C1X: make([]byte, 32), MsgLen: 20, Seed: 8},              // C1 = (0, sqrt b)
 		{D: b32(d0), C1X: make([]byte, 32), C1Odd: true, MsgLen: 97, Seed: 9}, // C1 = (0, -sqrt b)
 	}
 }
